@@ -1,6 +1,9 @@
 package curves
 
 import (
+	"fmt"
+	"math"
+
 	"github.com/markusressel/fan2go/internal/configuration"
 	"github.com/markusressel/fan2go/internal/sensors"
 	"github.com/markusressel/fan2go/internal/ui"
@@ -29,6 +32,10 @@ func (c *PidSpeedCurve) Evaluate() (value int, err error) {
 	pidTarget := c.Config.PID.SetPoint
 
 	loopValue := c.pidLoop.Loop(pidTarget, measured/1000.0)
+	if math.IsNaN(loopValue) {
+		// the PID term is undefined (e.g. no time has passed since the last evaluation)
+		return c.Value, fmt.Errorf("PID loop of curve %s yielded NaN", c.Config.ID)
+	}
 
 	// clamp to (0..1)
 	loopValue = util.Coerce(loopValue, 0, 1)
